@@ -60,7 +60,7 @@ def make_case(index, rng, tier):
         elif k < 8:
             ops.append(["rename", i, rng.choice([PATH, PATH2])])
         elif k < 9:
-            ops.append(["foreign", rng.choice([PATH, PATH2]), rng.choice(["999\n", "own:%d" % rng.randrange(ninst), "junk", "12", "1\n"])])
+            ops.append(["foreign", rng.choice([PATH, PATH2]), rng.choice(["999\n", "own:%d" % rng.randrange(ninst), "junk", "12", "1\n", "prefix:%d" % rng.randrange(ninst), "prefixlive:%d" % rng.randrange(ninst)])])
         elif k < 10:
             ops.append(["death", i])
         elif k < 11:
@@ -132,6 +132,13 @@ def _play(case, choices, res, fault, _unused, target):
             data = op[2]
             if data.startswith("own:"):
                 data = "%d\n" % pids[int(data[4:]) % len(pids)]
+            elif data.startswith("prefix:"):
+                data = "%d7\n" % pids[int(data[7:]) % len(pids)]          # another pid that merely starts with ours (dead)
+            elif data.startswith("prefixlive:"):
+                big = int("%d7" % pids[int(data[11:]) % len(pids)])
+                if big not in sim.procs:
+                    w.add_instance("big%d" % big, big)                      # ... and one that is alive
+                data = "%d\n" % big
             w.foreign_write(op[1], data.encode())
             trace.append(("foreign", op[1], data))
             continue
